@@ -2158,7 +2158,7 @@ def c18_post(rec, c, r, d):
 
 PROPS["C16"] = {"theorems": ['C16_literal', 'C16_alias', 'C16_paren', 'C16_partial_required_flags', 'C16_partial_sets_optional', 'C16_pick_omit_partition', 'C16_required_iff_not_optional', 'C16_imported_type_reported', 'C16_unknown_global_reported', 'C16_unsupported_construct_reported', 'aliasHook_registers', 'C16_registry_from_whole_module', 'resolveElements_eq_members', 'propFold_mems', 'C16_grammar', 'C16_spec_registry_is_the_models', 'C16_merged_interface_keeps_extends', 'C16_interface_extends', 'C16_extends_parent_with_arguments', 'C16_extends_qualified_reported', 'C16_indexed_access_inherited', 'C16_partial_over_getter', 'C16_indexed_access_into_intersection', 'C16_indexed_access_paren', 'C16_indexed_access_into_utility', 'C16_refines_spec', 'C16_model_implements_spec', 'literalStrings_refines', 'propsOfTypeG_mono'], "extra_modules": ["VueJsx.Props.C16c"], "cases": c16_cases, "nontrivial": _has_dc,
                 "explanation": "oracle: the set-theoretic meaning of the annotated props type over the WHOLE module's declarations (TypeSpec.propsOfType) = the keys and `required` flags of the injected props; a type outside the grammar must be reported"}
-PROPS["C17"] = {"theorems": ['C17_keyword_table', 'C17_structural_table', 'C17_literal_table', 'C17_builtin_class', 'C17_union_order', 'inferRuntime_eq_rt', 'rt_sound', 'C17_soundness', 'C17_emitted_no_stricter', 'C17_soundness_emitted', 'C17_null_kept', 'C17_boolean_string_order', 'C17_object_like_never_empty', 'C17_empty_object_literal', 'C17_interface_own_members', 'C17_interface_extends_only', 'C17_tuple_rest_element', 'C17_indexed_access_never_empty'], "cases": c17_cases, "nontrivial": _has_dc,
+PROPS["C17"] = {"theorems": ['C17_keyword_table', 'C17_structural_table', 'C17_literal_table', 'C17_builtin_class', 'C17_union_order', 'inferRuntime_eq_rt', 'rt_sound', 'C17_soundness', 'C17_emitted_no_stricter', 'C17_soundness_emitted', 'C17_null_kept', 'C17_boolean_string_order', 'C17_object_like_never_empty', 'C17_empty_object_literal', 'C17_interface_own_members', 'C17_interface_extends_only', 'C17_tuple_rest_element', 'C17_indexed_access_never_empty', 'C17_refines_spec', 'C17_model_implements_spec'], "extra_modules": ["VueJsx.Props.C17c"], "cases": c17_cases, "nontrivial": _has_dc,
                 "explanation": "oracle: the JavaScript constructors of the declared type (TypeSpec.ctorsOfType; any/unknown = no check) = those of the emitted `type`, Boolean/String order kept"}
 PROPS["C18"] = {"theorems": ['C18_literal_as_is', 'C18_expression_through_factory', 'C18_function_prop_gets_value', 'C18_function_prop_gets_written_function', 'C18_shorthand', 'C18_getter', 'C18_method_is_the_function', 'C18_key_spellings_match', 'C18_dynamic_forms', 'C18_one_dynamic_entry_suffices', 'C18_dynamic_goes_through_mergeDefaults', 'C18_no_default_no_entry', 'C18_function_flag_is_vues', 'C18_union_with_function_is_not_function_prop'], "cases": c18_cases, "post": c18_post, "nontrivial": _has_dc,
                 "explanation": "oracle: every statically written default reaches its prop's `default` as the value itself (literals, methods, Function-typed props) or as a factory returning it; non-analysable defaults go through mergeDefaults unchanged"}
